@@ -100,6 +100,14 @@ func chainFor(kind, defect string) *pki.Chain {
 		leaf.EKU = []x509.ExtKeyUsage{x509.ExtKeyUsageCodeSigning, x509.ExtKeyUsageServerAuth}
 	case "leaf-eku-timestamping":
 		leaf.EKU = []x509.ExtKeyUsage{x509.ExtKeyUsageTimeStamping}
+	case "leaf-eku-clientauth":
+		leaf.EKU = []x509.ExtKeyUsage{x509.ExtKeyUsageCodeSigning, x509.ExtKeyUsageClientAuth}
+	case "leaf-eku-emailprotection":
+		leaf.EKU = []x509.ExtKeyUsage{x509.ExtKeyUsageEmailProtection, x509.ExtKeyUsageCodeSigning}
+	case "leaf-eku-ocspsigning":
+		leaf.EKU = []x509.ExtKeyUsage{x509.ExtKeyUsageCodeSigning, x509.ExtKeyUsageOCSPSigning}
+	case "leaf-eku-timestamping-next-to-codesigning":
+		leaf.EKU = []x509.ExtKeyUsage{x509.ExtKeyUsageCodeSigning, x509.ExtKeyUsageTimeStamping}
 	case "ca-no-certsign":
 		ca.KU = x509.KeyUsageCRLSign
 	case "ca-not-ca":
@@ -150,6 +158,7 @@ func chainFor(kind, defect string) *pki.Chain {
 }
 
 var chainDefects = []string{"leaf-ca", "leaf-ku-absent", "leaf-ku-noncritical", "leaf-ku-certsign", "leaf-ku-keyencipherment", "leaf-eku-serverauth", "leaf-eku-timestamping",
+	"leaf-eku-clientauth", "leaf-eku-emailprotection", "leaf-eku-ocspsigning", "leaf-eku-timestamping-next-to-codesigning",
 	"ca-no-certsign", "ca-not-ca", "ca-pathlen-0-above-intermediate", "root-missing", "intermediate-missing", "order-swapped", "wrong-issuer-key", "duplicate-root", "ca-expired-at-signing-time",
 	"root-expired-at-signing-time", "root-not-yet-valid-at-signing-time", "ca-not-yet-valid-at-signing-time",
 	"leaf-names-issuer-in-another-string-type", "ca-names-issuer-in-another-string-type"}
